@@ -121,9 +121,167 @@ def t_docstrings(tree, path):
     return tree
 
 
+class _InsertNoops(ast.NodeTransformer):
+    """A no-op statement (`_noop = None`-free: a bare string expression, like a comment) between every two statements of
+    every function body / branch / loop body: statement adjacency and body[-1]/body[0] positions all move."""
+
+    def _pad(self, stmts):
+        out = []
+        for i, st in enumerate(stmts):
+            if i or not (isinstance(st, ast.Expr) and isinstance(getattr(st, "value", None), ast.Constant)):
+                self.k = getattr(self, "k", 0) + 1
+                out.append(ast.Expr(value=ast.Constant(value="neutral variant: no-op")) if self.k % 2 else
+                           ast.parse('logging.getLogger(__name__).debug("neutral variant")').body[0])
+            out.append(st)
+        return out
+
+    def generic_visit(self, node):
+        super().generic_visit(node)
+        if isinstance(node, ast.Module) or isinstance(node, ast.ClassDef):
+            return node
+        for f in ("body", "orelse", "finalbody"):
+            v = getattr(node, f, None)
+            if isinstance(v, list) and v and isinstance(v[0], ast.stmt):
+                # keep a docstring first
+                if f == "body" and isinstance(node, (ast.FunctionDef,)) and isinstance(v[0], ast.Expr) and isinstance(v[0].value, ast.Constant) \
+                        and isinstance(v[0].value.value, str):
+                    setattr(node, f, [v[0]] + self._pad(v[1:]))
+                else:
+                    setattr(node, f, self._pad(v))
+        return node
+
+
+def t_insert_noops(tree, path):
+    tree = _InsertNoops().visit(tree)
+    i = 0
+    while i < len(tree.body) and ((isinstance(tree.body[i], ast.Expr) and isinstance(tree.body[i].value, ast.Constant)) or
+                                  (isinstance(tree.body[i], ast.ImportFrom) and tree.body[i].module == "__future__")):
+        i += 1
+    tree.body.insert(i, ast.parse("import logging").body[0])
+    return tree
+
+
+class _HoistConstants(ast.NodeTransformer):
+    """Numeric literals used in function bodies (|v| > 1, not inside subscripts / default arguments / decorators) become
+    module-level constants `_K<n>`: rules must compare constant-propagated VALUES, not spellings."""
+
+    def __init__(self):
+        self.table = {}
+        self.depth = 0
+        self.block = 0
+
+    def visit_FunctionDef(self, fn):
+        self.depth += 1
+        fn.body = [self.visit(b) for b in fn.body]
+        self.depth -= 1
+        return fn
+
+    def visit_Subscript(self, n):
+        self.block += 1
+        self.generic_visit(n)
+        self.block -= 1
+        return n
+
+    def visit_Lambda(self, n):
+        return n
+
+    def visit_JoinedStr(self, n):
+        return n
+
+    def visit_Call(self, c):
+        # keep literals that select behaviour of library calls by identity of small ints (axis=, ndmin=, range bounds): only
+        # hoist inside arithmetic
+        c.func = self.visit(c.func)
+        c.args = [self.visit(a) if isinstance(a, (ast.BinOp, ast.UnaryOp, ast.Call, ast.Compare, ast.IfExp)) else a for a in c.args]
+        for k in c.keywords:
+            if isinstance(k.value, (ast.BinOp, ast.UnaryOp, ast.Call, ast.Compare, ast.IfExp)):
+                k.value = self.visit(k.value)
+        return c
+
+    def visit_Constant(self, n):
+        if self.depth and not self.block and type(n.value) in (int, float) and abs(n.value) > 1 and n.value == n.value:
+            nm = self.table.setdefault((type(n.value).__name__, n.value), f"_K{len(self.table)}")
+            return ast.copy_location(ast.Name(id=nm, ctx=ast.Load()), n)
+        return n
+
+
+def t_hoist_constants(tree, path):
+    h = _HoistConstants()
+    tree = h.visit(tree)
+    if h.table:
+        defs = [ast.Assign(targets=[ast.Name(id=nm, ctx=ast.Store())], value=ast.Constant(value=v), lineno=1, col_offset=0)
+                for (_, v), nm in h.table.items()]
+        i = 0
+        while i < len(tree.body) and (isinstance(tree.body[i], (ast.Import, ast.ImportFrom)) or
+                                      (isinstance(tree.body[i], ast.Expr) and isinstance(tree.body[i].value, ast.Constant))):
+            i += 1
+        tree.body[i:i] = defs
+    return tree
+
+
+def t_reorder_functions(tree, path):
+    """Reverse every maximal run of consecutive undecorated top-level function definitions (definition order is
+    immaterial for functions that are only called after import)."""
+    out, run = [], []
+    for st in tree.body + [None]:
+        if isinstance(st, ast.FunctionDef) and not st.decorator_list:
+            run.append(st)
+        else:
+            out.extend(reversed(run))
+            run = []
+            if st is not None:
+                out.append(st)
+    tree.body = out
+    return tree
+
+
+class _NoElseReturn(ast.NodeTransformer):
+    """pylint's no-else-return / no-else-raise / no-else-continue: `if c: ...; return x  else: B` -> `if c: ...; return x` + B."""
+
+    def _fix(self, stmts):
+        out = []
+        for st in stmts:
+            if isinstance(st, ast.If) and st.orelse and isinstance(st.body[-1], (ast.Return, ast.Raise, ast.Continue, ast.Break)):
+                tail = st.orelse
+                st.orelse = []
+                out.append(st)
+                out.extend(self._fix(tail))
+            else:
+                out.append(st)
+        return out
+
+    def generic_visit(self, node):
+        super().generic_visit(node)
+        for f in ("body", "orelse", "finalbody"):
+            v = getattr(node, f, None)
+            if isinstance(v, list) and v and isinstance(v[0], ast.stmt):
+                setattr(node, f, self._fix(v))
+        return node
+
+
+def t_no_else_return(tree, path):
+    return _NoElseReturn().visit(tree)
+
+
+class _FlipCompare(ast.NodeTransformer):
+    FLIP = {ast.Lt: ast.Gt, ast.Gt: ast.Lt, ast.LtE: ast.GtE, ast.GtE: ast.LtE}
+
+    def visit_Compare(self, c):
+        self.generic_visit(c)
+        if len(c.ops) == 1 and type(c.ops[0]) in self.FLIP:
+            c.left, c.comparators, c.ops = c.comparators[0], [c.left], [self.FLIP[type(c.ops[0])]()]
+        return c
+
+
+def t_flip_compare(tree, path):
+    return _FlipCompare().visit(tree)
+
+
 NEUTRAL_PY = {
     "reformat": t_reformat, "swap_mult": t_swap_mult, "rename_locals": t_rename_locals, "split_return": t_split_return,
     "dim_positional": t_dim_positional, "docstrings": t_docstrings,
+    "insert_noops": t_insert_noops, "hoist_constants": t_hoist_constants, "reorder_functions": t_reorder_functions,
+    "no_else_return": t_no_else_return, "flip_compare": t_flip_compare,
 }
 
 
@@ -142,7 +300,13 @@ def c_rename_locals(src):
     return src
 
 
-NEUTRAL_C = {"c_strip_comments": c_strip_comments, "c_blank_lines": c_blank_lines, "c_rename_locals": c_rename_locals}
+def c_increments(src):
+    # `x++` as a statement / loop step -> `x += 1`
+    src = re.sub(r"\b(\w+)\+\+\s*\)", r"\1 += 1)", src)
+    return re.sub(r"^(\s*)(\w+)\+\+;", r"\1\2 += 1;", src, flags=re.M)
+
+
+NEUTRAL_C = {"c_increments": c_increments, "c_strip_comments": c_strip_comments, "c_blank_lines": c_blank_lines, "c_rename_locals": c_rename_locals}
 
 
 # ---- driver --------------------------------------------------------------------------------------------
